@@ -77,6 +77,10 @@ def adapt(case):
     if case['source'] == 'sqlite':
         from tv.gen import sqlite as S
         case['frame'] = S.restrict_frame(case['frame'])
+        if case.get('nul') is False and len(case['frame']['cols']) >= 2:
+            # a composite UNIQUE constraint over the first two columns
+            # (only created when their value pairs are in fact distinct)
+            case['frame']['key'] = 'unique'
     return case
 
 
@@ -143,6 +147,10 @@ def run(case, ctx):
     out = Outcome()
     desc = case['frame']
     source = case['source']
+    if source == 'sqlite' and desc.get('key'):
+        from tv.gen import sqlite as S
+        if S.composite_key(desc):
+            out.label('sqlite:composite-unique')
     if source == 'sqlite' and case.get('nul'):
         desc = nul_form(desc)
         if any(isinstance(v, str) and '\x00' in v for c in desc['cols']
